@@ -46,7 +46,7 @@ EXPLANATION = (
     'always a fresh array.  Added after the bug hunt: (D4) every slot is stored when the constructor returns, the '
     'rectangular row view names its row count (no -1 next to a row length that may be 0); (D6) append joins the new '
     'rows along axis 0 and tells a flat row apart before np.concatenate, __setitem__ probes value[0] only behind a '
-    'non-emptiness test; (D7) no writer builds the row container by np.array(<rows>, dtype=object); (D2) the class opts '
+    'non-emptiness test; (D7) no writer builds the row container by np.array(<rows>, dtype=object); (D1) an attribute computed from a representation is a fourth representation every writer refreshes; (D6) append extends lengths and flat data in the same order by the lengths and the values of the same rows; (D5) the content rules of the index conversions (C05.D1 bounds / negative re-check / flat-to-2d) are run for the write path, every refusal on that path can fire (sign domain), every helper on it is covered; (D2) the class opts '
     'out of numpy operator dispatch so that numpy left operands reach the reflected operators; the slice-bound and '
     'index-dtype rules of the read path (C05.D2/D4/D5) are run for the helpers the writer reaches.  '
     'Statements are recognised by role after expansion '
@@ -250,6 +250,8 @@ class Ctx:
                 reads_me = True
             if fi.rd.defs_at(site, m.id) != fi.rd.defs_at(at, m.id):
                 return None, None
+            if m.id in _module_aliases(self.mod) and m.id not in self._local_names():
+                continue        # `np.append(x, y)` is not a mutation of the module `np`
             for ms in fi._mutated_in_place(m.id):
                 if between(ms):
                     return None, None
@@ -260,6 +262,15 @@ class Ctx:
                 if self.events(n) and between(n):
                     return None, None
         return v, site
+
+    def _local_names(self):
+        if getattr(self, '_locals', None) is None:
+            names = set(self.params)
+            for n in walk_local(self.fn):
+                if isinstance(n, ast.Name) and isinstance(n.ctx, (ast.Store, ast.Del)):
+                    names.add(n.id)
+            self._locals = names
+        return self._locals
 
     def vexpand(self, expr, at=None, depth=8):
         """Canonical copy of `expr` with every temporary replaced by its
@@ -323,6 +334,20 @@ class Ctx:
 
 
 _REPO = []
+_ALIASES = {}
+
+
+def _module_aliases(mod):
+    """Names bound by the import statements at the top level of the module."""
+    key = id(mod)
+    if key not in _ALIASES:
+        out = set()
+        for st in mod.tree.body:
+            if isinstance(st, (ast.Import, ast.ImportFrom)):
+                for a in st.names:
+                    out.add((a.asname or a.name).split('.')[0])
+        _ALIASES[key] = (mod, out)
+    return _ALIASES[key][1]
 
 
 def _mentions_attr(cx, e, attr):
@@ -1093,6 +1118,16 @@ def _copy_making(cx, v):
                 return 'match'
         elif isinstance(v.func, ast.Attribute) and v.func.attr == 'copy' and not v.args and not v.keywords:
             return 'match'          # canonical form of np.array(<name>)
+        elif isinstance(v.func, ast.Attribute) and v.func.attr == 'flatten' and not (
+                isinstance(v.func.value, ast.Name) and v.func.value.id == 'np'):
+            return 'match'          # ndarray.flatten always returns a copy (ravel / reshape do not)
+        elif isinstance(v.func, ast.Attribute) and v.func.attr == 'astype' and not (
+                isinstance(v.func.value, ast.Name) and v.func.value.id == 'np'):
+            c = kwarg(v, 'copy')
+            if c is None or const_value(c) is True or (isinstance(c, ast.Name) and c.id == 'copy' and cx.param_only(c)):
+                return 'match'      # astype copies unless copy=False
+    elif isinstance(v, (ast.BinOp, ast.UnaryOp)) and not isinstance(getattr(v, 'op', None), ast.UAdd):
+        return 'match'              # the result of array arithmetic is a new array
     return _near_far(cx, v)
 
 
@@ -1178,6 +1213,52 @@ def _module_callees(mod, fn, depth=4):
     return out
 
 
+_BOOL_CALLS = {'isinstance', 'issubclass', 'hasattr', 'callable', 'bool', 'np.isscalar', 'np.iterable', 'np.issubdtype',
+               'np.array_equal', 'np.can_cast'}
+
+
+def _bool_valued(e):
+    """The expression is a truth value by construction (it denotes no index,
+    length or array)."""
+    if isinstance(e, ast.Constant):
+        return isinstance(e.value, bool)
+    if isinstance(e, ast.Compare):
+        # `x < 0` on an array is a mask - an address -, not a truth value: ordering/equality only between scalars
+        def scalar(x):
+            return (isinstance(x, ast.Constant) and isinstance(x.value, (int, float)) and not isinstance(x.value, bool)) or \
+                (isinstance(x, ast.Call) and call_name(x) in ('len', 'np.ndim', 'np.size', 'type')) or \
+                (isinstance(x, ast.Attribute) and x.attr in ('size', 'ndim', '__class__'))
+        return all(isinstance(o, (ast.Is, ast.IsNot, ast.In, ast.NotIn)) for o in e.ops) or \
+            all(scalar(x) for x in [e.left] + e.comparators)
+    if isinstance(e, ast.UnaryOp) and isinstance(e.op, ast.Not):
+        return True
+    if isinstance(e, ast.BoolOp):
+        return all(_bool_valued(x) for x in e.values)
+    if isinstance(e, ast.IfExp):
+        return _bool_valued(e.body) and _bool_valued(e.orelse)
+    if isinstance(e, ast.Call):
+        return call_name(e) in _BOOL_CALLS
+    return False
+
+
+def _is_predicate(mod, fn):
+    """A helper that only answers yes/no: every return value is, after the
+    expansion of temporaries, a truth value by construction, and the function
+    stores into nothing but its own locals."""
+    rets = [r for r in returns_of(fn) if r.value is not None]
+    if not rets:
+        return False
+    fi = finfo(mod, fn)
+    for s in walk_local(fn):
+        if isinstance(s, (ast.Assign, ast.AugAssign, ast.AnnAssign)):
+            tg = s.targets if isinstance(s, ast.Assign) else [s.target]
+            if any(not isinstance(t, ast.Name) for t in tg):
+                return False
+        if isinstance(s, (ast.Global, ast.Nonlocal, ast.Yield, ast.YieldFrom)):
+            return False
+    return all(_bool_valued(fi.expand(r.value)) for r in rets)
+
+
 def d5_write_addressing(ck, mod):
     """The typestate (D1) shows that every store into the flat data is
     followed by a rebuild of the rows; it says nothing about WHICH cells the
@@ -1215,6 +1296,13 @@ def d5_write_addressing(ck, mod):
                  (None, C05.d3_dispatch), ('_get_iis_from_slices', C05.d4_index_space),
                  # a[rows, -k:] = v / a[:5, 0] = v / a[mask] = v address cells through the same helpers as the reads
                  ('_slice_to_list', C05.d2_slices), ('_convert_from_1d', C05.d5_index_dtype)]
+        # the CONTENT of the conversions the writer goes through (call-sites only shows that the store takes its index
+        # from _convert_from_2d): which (row, column) pairs are refused - a column at/after the end of its row, a row or
+        # column still negative after the offset by the row count / row length - and which flat position a pair and a
+        # mask position denote.  A pair that is not refused addresses a cell of ANOTHER row in a write.  Run for the
+        # helper when the writer reaches it; when it does not, the remaining groups see the restructured conversion.
+        content = [(('_convert_from_2d',), C05.d1_bounds), (('_handle_negative_indices',), C05.d1_negatives),
+                   (('_convert_from_1d', 'where'), C05.d5_where)]
     except (ImportError, AttributeError) as e:
         ck.missing(rule, 'index-space rules of the read path (sa/rules/C05.py) not available: %r' % (e,))
         return
@@ -1230,6 +1318,20 @@ def d5_write_addressing(ck, mod):
         n += 1
         if run is not None:
             run(ck, mod)
+    covered = {h for h, _ in rules if h} | {'partition_list'}
+    for helpers, run in content:
+        if helpers[0] in callees:
+            covered.update(helpers)
+            run(ck, mod)
+    # every other module-level function between the index of `a[...] = v` and the flat store: no rule looks at
+    # what it computes, so the check must not say HOLDS on its account (a pure predicate decides no address)
+    for h in sorted(callees - covered):
+        hf = mod.functions[h]
+        if _is_predicate(mod, hf):
+            continue
+        ck.missing(rule, '%s reaches the module-level helper %s on the way to the flat index of `%s`; no index-space rule covers it'
+                   % (W, h, u(stores[0])[:80]))
+    d5_refusals_live(ck, mod, [(W, fn)] + [(h, mod.functions[h]) for h in sorted(callees)])
     # the rebuild primitive: every 'flat' re-synchronisation of D1 is
     # np.array(partition_list(self._data, lengths)); the rows agree with the
     # flat data only if partition_list cuts consecutive pieces of those lengths
@@ -1241,6 +1343,849 @@ def d5_write_addressing(ck, mod):
     ck.ok(rule, mod, fn, '%s: %d flat-data stores; index helpers reached: %s' % (W, len(stores), ', '.join(sorted(callees))),
           'the index-space rules C05.D1.row-bounds.call-sites / C05.D3 / C05.D4 / C05.D7 apply to the write path')
     ck.floor(rule, n, 5, 'index-space rule groups applied to the write path')
+
+
+# ---------------------------------------------------------------------------
+# D5b the refusals of the index helpers can fire (sign domain)
+
+_NONNEG_CALLS = {'len', 'abs', 'np.abs', 'np.absolute', 'np.fabs', 'np.flatnonzero', 'np.argwhere', 'np.nonzero', 'np.count_nonzero',
+                 'np.argmax', 'np.argmin', 'np.argsort', 'np.size', 'np.ndim', 'np.shape', 'np.bincount'}
+_NONNEG_METHODS = {'nonzero', 'argmax', 'argmin', 'argsort'}
+_NONNEG_ATTRS = {'size', 'ndim', 'shape', 'nbytes', 'itemsize'}
+# value-preserving wrappers / selections / order statistics: non-negative when their operand is
+_SIGN_KEEPING_CALLS = {'np.array', 'np.asarray', 'np.asanyarray', 'np.atleast_1d', 'np.copy', 'np.ravel', 'np.sort', 'np.unique',
+                       'np.max', 'np.min', 'np.sum', 'np.cumsum', 'np.squeeze', 'np.concatenate', 'np.append', 'np.hstack',
+                       'list', 'tuple', 'sorted', 'max', 'min', 'sum', 'int'}
+_SIGN_KEEPING_METHODS = {'copy', 'reshape', 'ravel', 'flatten', 'max', 'min', 'sum', 'cumsum', 'squeeze', 'tolist', 'item'}
+_SIGN_NEUTRAL_KW = {'axis', 'dtype', 'copy', 'keepdims', 'kind', 'order', 'ndmin', 'subok'}
+_HARMLESS_CONSUMERS = {'len', 'range', 'enumerate', 'zip', 'list', 'tuple', 'sorted', 'sum', 'min', 'max', 'int', 'float', 'bool',
+                       'print', 'str', 'repr', 'isinstance', 'type', 'any', 'all'}
+
+
+class Signs:
+    """A small abstract interpretation of one function over the sign domain
+    {ZERO (the number 0 / an all-False mask / an all-zero array), NONNEG,
+    unknown}: which expressions
+    are non-negative BY CONSTRUCTION (positions returned by np.where(mask) /
+    np.nonzero / argsort, lengths, sizes, counts, absolute values, sums and
+    products of such), through def-use for local names (every reaching
+    definition non-negative, the object never stored into nor aliased)."""
+    ZERO, NONNEG = 'zero', 'nonneg'
+
+    def __init__(self, mod, fn):
+        self.mod, self.fn = mod, fn
+        self.fi = finfo(mod, fn)
+        self._busy = set()
+
+    def _escapes(self, name):
+        """The object bound to `name` may be written through another path: a
+        bare alias `z = name`, or the name handed to a non-numpy callee."""
+        fi = self.fi
+        if fi._mutated_in_place(name):
+            return True
+        for n in walk_local(self.fn):
+            if isinstance(n, (ast.Assign, ast.AnnAssign)) and isinstance(n.value, ast.Name) and n.value.id == name:
+                return True
+            if isinstance(n, ast.Call):
+                cn = call_name(n) or ''
+                if cn.startswith(('np.', 'numpy.')) or cn in _HARMLESS_CONSUMERS:
+                    if any(k.arg == 'out' and isinstance(k.value, ast.Name) and k.value.id == name for k in n.keywords):
+                        return True
+                    continue
+                if isinstance(n.func, ast.Attribute) and isinstance(n.func.value, ast.Name) and n.func.value.id == name:
+                    continue        # a method of the object itself: mutating ones are in _mutated_in_place
+                if any(isinstance(a, ast.Name) and a.id == name for a in list(n.args) + [k.value for k in n.keywords]):
+                    return True
+        return False
+
+    def nonneg(self, e, at, depth=8):
+        v = self.sign(e, at, depth)
+        return v in (self.ZERO, self.NONNEG)
+
+    def sign(self, e, at, depth=8):
+        Z, N = self.ZERO, self.NONNEG
+        if e is None or depth < 0:
+            return None
+        if isinstance(e, ast.Constant):
+            if isinstance(e.value, bool):
+                return N if e.value else Z
+            if isinstance(e.value, (int, float)):
+                return Z if e.value == 0 else (N if e.value > 0 else None)
+            return None
+        if isinstance(e, ast.Name):
+            if at is None or (id(at), e.id) in self._busy:
+                return None
+            defs = self.fi.rd.defs_at(at, e.id)
+            if not defs or self._escapes(e.id):
+                return None
+            out = set()
+            self._busy.add((id(at), e.id))
+            try:
+                for site in defs:
+                    if site in ('PARAM', 'UNBOUND'):
+                        return None
+                    if isinstance(site, (ast.For, ast.AsyncFor)) and isinstance(site.target, ast.Name) and site.target.id == e.id:
+                        it = site.iter          # an element of a non-negative sequence / range(n) / range(a >= 0, b)
+                        if isinstance(it, ast.Call) and call_name(it) in ('range', 'np.arange') and not it.keywords and \
+                                (len(it.args) == 1 or (len(it.args) == 2 and self.nonneg(it.args[0], site, depth - 1))):
+                            out.add(N)
+                            continue
+                        out.add(self.sign(it, site, depth - 1))
+                        continue
+                    v = self.fi.def_value(site, e.id) if isinstance(site, (ast.Assign, ast.AnnAssign)) else None
+                    out.add(self.sign(v, site, depth - 1) if v is not None else None)
+            finally:
+                self._busy.discard((id(at), e.id))
+            if None in out:
+                return None
+            return Z if out == {Z} else N
+        if isinstance(e, ast.Attribute):
+            if e.attr == 'size' and self._empty(e.value, at, depth - 1):
+                return Z
+            if e.attr in _NONNEG_ATTRS:
+                return N
+            if e.attr in ('T', 'real', 'flat'):
+                return self.sign(e.value, at, depth - 1)
+            return None
+        if isinstance(e, ast.Subscript):
+            # an element / a selection / a member of the tuple of position arrays
+            return self.sign(e.value, at, depth - 1)
+        if isinstance(e, (ast.Tuple, ast.List)):
+            vs = [self.sign(x, at, depth - 1) for x in e.elts]
+            if not vs:
+                return Z
+            return None if None in vs else (Z if set(vs) == {Z} else N)
+        if isinstance(e, (ast.ListComp, ast.GeneratorExp)):
+            return None
+        if isinstance(e, ast.IfExp):
+            a, b = self.sign(e.body, at, depth - 1), self.sign(e.orelse, at, depth - 1)
+            return None if None in (a, b) else (Z if a == b == Z else N)
+        if isinstance(e, ast.UnaryOp):
+            if isinstance(e.op, ast.UAdd):
+                return self.sign(e.operand, at, depth - 1)
+            if isinstance(e.op, ast.USub):
+                return Z if self.sign(e.operand, at, depth - 1) == Z else None
+            return None
+        if isinstance(e, ast.BinOp):
+            a, b = self.sign(e.left, at, depth - 1), self.sign(e.right, at, depth - 1)
+            if isinstance(e.op, ast.Add):
+                return None if None in (a, b) else (Z if a == b == Z else N)
+            if isinstance(e.op, ast.Mult):
+                if None in (a, b):
+                    return None
+                return Z if Z in (a, b) else N
+            if isinstance(e.op, (ast.FloorDiv, ast.Div, ast.Mod)) and a is not None and b == N and \
+                    isinstance(e.right, ast.Constant):
+                return N if a == N else Z
+            return None
+        if isinstance(e, ast.BoolOp):
+            vs = [self.sign(x, at, depth - 1) for x in e.values]
+            if isinstance(e.op, ast.And):
+                # the first falsy operand is the value: falsy whenever ONE conjunct is constant-false
+                return Z if Z in vs else (None if None in vs else N)
+            return None if None in vs else (Z if set(vs) == {Z} else N)
+        if isinstance(e, ast.Compare):
+            return self._compare(e, at, depth)
+        if isinstance(e, ast.Call):
+            cn = call_name(e)
+            f = e.func
+            if cn == 'np.where':
+                if len(e.args) == 1 and not e.keywords:
+                    return N            # the tuple of position arrays
+                if len(e.args) == 3:
+                    a, b = self.sign(e.args[1], at, depth - 1), self.sign(e.args[2], at, depth - 1)
+                    return None if None in (a, b) else (Z if a == b == Z else N)
+                return None
+            if cn in ('np.arange', 'range') and not e.keywords and (
+                    len(e.args) == 1 or (len(e.args) == 2 and self.nonneg(e.args[0], at, depth - 1))):
+                return N
+            if cn in ('len', 'np.size') and len(e.args) == 1:
+                return Z if self._empty(e.args[0], at, depth - 1) else N
+            if cn == 'np.count_nonzero' and e.args:
+                return Z if self.sign(e.args[0], at, depth - 1) == Z or self._empty(e.args[0], at, depth - 1) else N
+            if cn in _NONNEG_CALLS:
+                return N
+            if cn in _SIGN_KEEPING_CALLS and e.args:
+                if any(k.arg not in _SIGN_NEUTRAL_KW for k in e.keywords):
+                    return None
+                if cn in ('np.append', 'max', 'min', 'sum') and len(e.args) > 1:
+                    vs = [self.sign(a, at, depth - 1) for a in e.args[:2]]
+                    return None if None in vs or len(e.args) > 2 else (Z if set(vs) == {Z} else N)
+                if cn == 'int' and len(e.args) != 1:
+                    return None
+                return self.sign(e.args[0], at, depth - 1)
+            if isinstance(f, ast.Attribute) and not (isinstance(f.value, ast.Name) and f.value.id in ('np', 'numpy')):
+                if f.attr in _NONNEG_METHODS:
+                    return N
+                if f.attr == 'any' or f.attr == 'all':
+                    v = self.sign(f.value, at, depth - 1)
+                    return Z if f.attr == 'any' and (v == Z or self._empty(f.value, at, depth - 1)) else N
+                if f.attr in _SIGN_KEEPING_METHODS:
+                    if any(k.arg not in _SIGN_NEUTRAL_KW for k in e.keywords):
+                        return None
+                    if f.attr == 'sum' and self._empty(f.value, at, depth - 1):
+                        return Z
+                    return self.sign(f.value, at, depth - 1)
+                if f.attr == 'astype' and e.args and u(e.args[0]) in ('int', 'np.int64', 'np.intp', 'float', 'np.int32', "'int'", 'bool'):
+                    return self.sign(f.value, at, depth - 1)
+            return None
+        return None
+
+    def _peel(self, e, at, depth=4):
+        """The defining expression of a single-definition name (for the KIND of
+        value - mask or not -, never for its operands' current values)."""
+        while isinstance(e, ast.Name) and depth > 0 and at is not None:
+            defs = self.fi.rd.defs_at(at, e.id)
+            if len(defs) != 1:
+                break
+            site = next(iter(defs))
+            v = self.fi.def_value(site, e.id) if isinstance(site, (ast.Assign, ast.AnnAssign)) else None
+            if v is None:
+                break
+            e, at, depth = v, site, depth - 1
+        return e
+
+    def _empty(self, e, at, depth=6):
+        """The value is an array WITHOUT elements: the positions of an all-False
+        mask (np.where(<mask>)[k], np.nonzero(<mask>)[k]), or an elementwise
+        comparison / selection of such."""
+        if depth < 0:
+            return False
+        x = self._peel(e, at)
+        if isinstance(x, ast.Name):
+            return False
+        # operands of the peeled definition are evaluated where the name is used only for their SIGN KIND:
+        # `_peel` follows single definitions, and Signs.sign re-checks every name through its own reaching definitions
+        at2 = self.fi.stmt(x) or at
+        if isinstance(x, ast.Compare) and len(x.ops) == 1:
+            return self._empty(x.left, at2, depth - 1) or self._empty(x.comparators[0], at2, depth - 1)
+        if isinstance(x, ast.Subscript) and isinstance(x.value, ast.Call) and call_name(x.value) in ('np.where', 'np.nonzero') \
+                and len(x.value.args) == 1 and not x.value.keywords and isinstance(const_value(x.slice, None), int):
+            m = x.value.args[0]
+            return self.sign(m, at2, depth - 1) == self.ZERO and isinstance(self._peel(m, at2), ast.Compare)
+        return False
+
+    def _compare(self, e, at, depth):
+        """`E < c` / `E <= c` with E non-negative and c too small is false for
+        every element; `c < Z`, `Z != 0`, `1 <= Z` with Z zero is false."""
+        Z, N = self.ZERO, self.NONNEG
+        if len(e.ops) != 1:
+            return None
+        op, a, b = e.ops[0], e.left, e.comparators[0]
+        if isinstance(op, (ast.Gt, ast.GtE)):
+            op, a, b = (ast.Lt() if isinstance(op, ast.Gt) else ast.LtE()), b, a
+        ka = const_value(a, None) if isinstance(a, (ast.Constant, ast.UnaryOp)) else None
+        kb = const_value(b, None) if isinstance(b, (ast.Constant, ast.UnaryOp)) else None
+        num = lambda k: isinstance(k, (int, float)) and not isinstance(k, bool)
+        sa = self.sign(a, at, depth - 1)
+        sb = self.sign(b, at, depth - 1)
+        if isinstance(op, ast.Lt):
+            if sa in (Z, N) and ((num(kb) and kb <= 0) or sb == Z):
+                return Z                # nonneg < 0
+            if sb == Z and num(ka) and ka >= 0:
+                return Z                # 0 < zero
+        elif isinstance(op, ast.LtE):
+            if sa in (Z, N) and num(kb) and kb < 0:
+                return Z                # nonneg <= -1
+            if sb == Z and num(ka) and ka > 0:
+                return Z                # 1 <= zero
+        elif isinstance(op, ast.NotEq):
+            if (sa == Z and (sb == Z or kb == 0)) or (sb == Z and ka == 0):
+                return Z                # zero != 0
+        elif isinstance(op, ast.Eq):
+            if (sa in (Z, N) and num(kb) and kb < 0) or (sb in (Z, N) and num(ka) and ka < 0):
+                return Z
+        return N                        # a truth value / a mask: non-negative, truth unknown
+
+
+def _raises_directly(stmts):
+    """A `raise` among the statements or under nested if/with (not inside a
+    nested loop, try or function)."""
+    for s in stmts:
+        if isinstance(s, ast.Raise):
+            return s
+        if isinstance(s, ast.If):
+            r = _raises_directly(s.body) or _raises_directly(s.orelse)
+            if r is not None:
+                return r
+        elif isinstance(s, (ast.With, ast.AsyncWith)):
+            r = _raises_directly(s.body)
+            if r is not None:
+                return r
+    return None
+
+
+def d5_refusals_live(ck, mod, fns):
+    """Every refusal (`if <test>: raise ...`) on the way from the index of
+    `a[...] = v` to the flat store can fire.  A test that asks for a negative
+    element of a value which is non-negative by construction - the POSITIONS of
+    the negative indices (np.where(idx < 0)[0]) instead of the indices, a length,
+    a count - is constant false: the refusal is dead code, the index it was
+    written for reaches the flat store, and the write lands in another row.
+    Decided in the sign domain (class Signs); a test the domain says nothing
+    about is left to the content rules of the helper."""
+    rule = 'C06.D5.write-addressing.refusals-live'
+    n = 0
+    for q, fn in fns:
+        sg = Signs(mod, fn)
+        fi = sg.fi
+        for g in walk_local(fn):
+            if not isinstance(g, ast.If):
+                continue
+            r = _raises_directly(g.body)
+            if r is None:
+                continue
+            n += 1
+            v = sg.sign(g.test, g)
+            exc = (call_name(r.exc) or u(r.exc)) if r.exc is not None else 're-raise'
+            if v != Signs.ZERO:
+                ck.ok(rule, mod, g, '%s: refusal (%s) under `%s`' % (q, exc, u(g.test)[:100]), 'not constant-false in the sign domain')
+                continue
+            # name the operand and, when there is one, the in-place update it went stale over
+            culprit, stale = None, None
+            for x in walk_expr(g.test):
+                if isinstance(x, ast.Name) and isinstance(x.ctx, ast.Load) and sg.nonneg(x, g) and x.id not in ('np', 'numpy'):
+                    culprit = x
+                    d = sg._peel(x, g)
+                    for y in walk_expr(d):
+                        if isinstance(y, ast.Name) and y.id != x.id:
+                            for m in fi._mutated_in_place(y.id):
+                                if fi.cfg.reachable(m, g):
+                                    stale = (y.id, m)
+                    break
+            what = ('`%s` (= %s)' % (culprit.id, u(sg._peel(culprit, g))[:80])) if culprit is not None else 'the tested value'
+            ck.bad(rule, mod, g, q, 'refusal (%s) that can never fire: operand of the sign test' % exc,
+                   'the test `%s` is constant false: %s is non-negative by construction (positions / lengths / counts), so no element of it '
+                   'is ever negative and the %s below it is dead code%s.  An index that should be refused (e.g. a row below -n_rows) reaches '
+                   'the flat store and the write lands in a cell of another row' % (
+                       u(g.test)[:120], what, exc,
+                       ('; the value that was updated in place before this test is `%s` (%s, L%s) - that is the one to re-test'
+                        % (stale[0], u(stale[1])[:60], getattr(stale[1], 'lineno', '?'))) if stale else ''))
+    if n == 0:
+        ck.ok(rule, mod, fns[0][1] if fns else mod.tree, 'no refusal in the index helpers of the writer', 'nothing to decide')
+    return n
+
+
+# ---------------------------------------------------------------------------
+# D6c append: the new row lengths describe the rows whose values were joined to the flat data
+
+_JOIN_FUNCS = {'np.concatenate', 'np.hstack', 'np.vstack', 'np.row_stack'}
+_SEQ_WRAPPERS = {'np.array', 'np.asarray', 'np.asanyarray', 'list', 'tuple', 'np.atleast_1d', 'np.fromiter'}
+
+
+def _unwrap_seq(e):
+    """Strip conversions that keep the sequence of values: np.array(X[, dtype]), list(X), X.copy(), X.tolist()."""
+    while True:
+        if isinstance(e, ast.Call) and call_name(e) in _SEQ_WRAPPERS and len(e.args) >= 1 and \
+                all(k.arg in ('dtype', 'copy', 'count') for k in e.keywords):
+            e = e.args[0]
+        elif isinstance(e, ast.Call) and isinstance(e.func, ast.Attribute) and e.func.attr in ('copy', 'tolist') and not e.args \
+                and not (isinstance(e.func.value, ast.Name) and e.func.value.id == 'np'):
+            e = e.func.value
+        elif isinstance(e, ast.Call) and isinstance(e.func, ast.Attribute) and e.func.attr == 'astype' \
+                and not (isinstance(e.func.value, ast.Name) and e.func.value.id == 'np'):
+            e = e.func.value            # same values (their element type is D6.flat-data.cast's business)
+        else:
+            return e
+
+
+def _list_typed(e):
+    return isinstance(e, (ast.List, ast.ListComp)) or (isinstance(e, ast.Call) and (
+        call_name(e) == 'list' or (isinstance(e.func, ast.Attribute) and e.func.attr == 'tolist')))
+
+
+def join_parts(e):
+    """Operands, in order, of an expression that joins sequences end to end:
+    np.append(a, b), np.concatenate([a, b, ...]), np.hstack((a, b)),
+    np.r_[a, b], list + list (under np.array(...)); None when `e` is no join."""
+    e = _unwrap_seq(e)
+    if isinstance(e, ast.Call):
+        cn = call_name(e)
+        if cn == 'np.append':
+            a, b = arg_or_kw(e, 0, 'arr'), arg_or_kw(e, 1, 'values')
+            return [a, b] if a is not None and b is not None else None
+        if cn in _JOIN_FUNCS and e.args and isinstance(e.args[0], (ast.List, ast.Tuple)) and \
+                not any(isinstance(x, ast.Starred) for x in e.args[0].elts):
+            return list(e.args[0].elts)
+        return None
+    if isinstance(e, ast.Subscript) and u(e.value) == 'np.r_' and isinstance(e.slice, ast.Tuple):
+        return list(e.slice.elts)
+    if isinstance(e, ast.BinOp) and isinstance(e.op, ast.Add) and _list_typed(e.left) and _list_typed(e.right):
+        return (join_parts(e.left) if isinstance(e.left, ast.BinOp) else [e.left]) + [e.right]
+    return None
+
+
+_LEN_FORMS = ('len(_I)', '_I.shape[0]', 'np.shape(_I)[0]', '_I.__len__()', 'np.size(_I, 0)', 'np.size(_I, axis=0)')
+
+
+def _is_len_of(e, name=None):
+    """e is the length (first-axis extent) of an expression: returns that expression."""
+    for f in _LEN_FORMS:
+        b = match(f, e)
+        if b is not None:
+            x = b['_I']
+            if name is None or (isinstance(x, ast.Name) and x.id == name):
+                return x
+    return None
+
+
+def _defs_leaves(cx, e, at, depth=5):
+    """The expressions a value may come from: `e` itself, or, for a local name
+    with several reaching definitions (arms of an if/else), the value of each
+    definition.  -> [(expanded expression, statement)]; None when a definition
+    has no simple value."""
+    if isinstance(e, ast.Name) and e.id not in cx.params and depth > 0:
+        defs = cx.fi.rd.defs_at(at, e.id)
+        out = []
+        for site in defs:
+            if site in ('PARAM', 'UNBOUND'):
+                return None
+            v = cx.fi.def_value(site, e.id) if isinstance(site, (ast.Assign, ast.AnnAssign)) else None
+            if v is None:
+                return None
+            sub = _defs_leaves(cx, v, site, depth - 1)
+            if sub is None:
+                return None
+            out += sub
+        return out
+    return [(cx.vexpand(e, at), at)]
+
+
+def _same_seq_value(cx, a, b):
+    """Two expanded expressions denote the same value: same canonical text and
+    every name in them is reached by the same definitions where each is
+    evaluated, none of them stored into."""
+    if u(a) != u(b):
+        return False
+    na = [n for n in ast.walk(a) if isinstance(n, ast.Name)]
+    nb = [n for n in ast.walk(b) if isinstance(n, ast.Name)]
+    for x, y in zip(na, nb):
+        if x.id != y.id:
+            return False
+        if x.id in ('np', 'numpy', 'len', 'list', 'tuple', 'map', 'range') or x.id == cx.me:
+            continue
+        ax, ay = cx.at_of(x), cx.at_of(y)
+        if ax is None or ay is None:
+            # a comprehension variable / an unexpanded position
+            continue
+        if cx.fi.rd.defs_at(ax, x.id) != cx.fi.rd.defs_at(ay, y.id):
+            return False
+        if cx.fi._mutated_in_place(x.id):
+            return False
+    return True
+
+
+def d6_append_lengths(ck, mod):
+    """List-of-rows model: `a.append(rows)` adds the rows r_1..r_k AFTER the
+    existing ones.  The writer keeps that in two places - the flat data gets
+    the concatenated values, `lengths` gets one entry per row - and D1 only
+    shows that both are written and the row view is rebuilt from them.  They
+    describe the same rows only if (1) old and new part are joined in the same
+    order, old first, in both, and (2) the new lengths are the lengths, row by
+    row, of the very sequence whose concatenation went into the flat data."""
+    rule = 'C06.D6.append.lengths'
+    q = CLS + '.append'
+    fn = mod.functions.get(q)
+    if fn is None:
+        ck.missing(rule, '%s not found' % q)
+        return 0
+    cx = Ctx(mod, fn)
+    if len(cx.params) < 2:
+        ck.missing(rule, '%s(self, values): parameters' % q)
+        return 0
+    V = cx.params[1]
+    cfg = cx.fi.cfg
+    SL = [s for s in walk_local(fn) if isinstance(s, ast.Assign) and len(s.targets) == 1 and cx.is_me_attr(s.targets[0], 'lengths')]
+    SD = [s for s in walk_local(fn) if isinstance(s, ast.Assign) and len(s.targets) == 1 and cx.is_me_attr(s.targets[0], '_data')]
+    if not SL and not SD:
+        ck.ok(rule, mod, fn, '%s: neither lengths nor flat data are rebound (delegates to the constructor)' % q, 'nothing to relate')
+        return 0
+
+    def old_new(s, attr):
+        """(index of the old part, [new parts], n parts) of the join stored by s."""
+        parts = join_parts(cx.vexpand(s.value, s))
+        if parts is None:
+            # the join may be hidden behind a name with several definitions: look at the raw value too
+            parts = join_parts(s.value)
+            if parts is not None:
+                parts = [cx.vexpand(p, s) for p in parts]
+        if parts is None:
+            return None
+        olds = [i for i, p in enumerate(parts) if cx.is_me_attr(_unwrap_seq(p), attr)]
+        if len(olds) != 1:
+            return None
+        return olds[0], [p for i, p in enumerate(parts) if i != olds[0]], len(parts)
+
+    n = 0
+    data_new = {}
+    for s in SD:
+        r = old_new(s, '_data')
+        if r is None:
+            ck.missing(rule, '%s L%s: the new flat data is not recognised as <old flat data> joined with <new values>: %s' % (
+                q, getattr(s, 'lineno', '?'), u(s)[:120]))
+            continue
+        n += 1
+        i_old, new, k = r
+        data_new[s] = new
+        ck.check(i_old == 0, rule + '.order', mod, s, q, 'position of the old flat data in the join that extends it',
+                 'the appended values follow the existing flat data',
+                 'the existing flat data is operand %d of %d of the join: the appended rows do not come AFTER the existing ones, '
+                 'so rows, iteration and flat data list them in another order than the list-of-rows model' % (i_old + 1, k))
+    for s in SL:
+        r = old_new(s, 'lengths')
+        if r is None:
+            ck.missing(rule, '%s L%s: the new lengths are not recognised as <old lengths> joined with <lengths of the new rows>: %s' % (
+                q, getattr(s, 'lineno', '?'), u(s)[:120]))
+            continue
+        n += 1
+        i_old, new, k = r
+        ck.check(i_old == 0, rule + '.order', mod, s, q, 'position of the old lengths in the join that extends them',
+                 'the lengths of the appended rows follow the existing lengths',
+                 'the existing lengths are operand %d of %d of the join while the values of the new rows are appended at the END of the flat '
+                 'data: the row boundaries are cut at the wrong places for every row (lengths and flat data describe different orders)'
+                 % (i_old + 1, k))
+        if len(new) != 1:
+            ck.missing(rule, '%s L%s: %d new parts are joined to the lengths' % (q, getattr(s, 'lineno', '?'), len(new)))
+            continue
+        # the flat-data extension the lengths belong to: on the same paths
+        sd = [d for d in data_new if cfg.reachable(d, s) or cfg.reachable(s, d)]
+        if len(sd) != 1 or len(data_new[sd[0]]) != 1:
+            ck.missing(rule, '%s L%s: the extension of the flat data that belongs to this extension of the lengths is not unique' % (
+                q, getattr(s, 'lineno', '?')))
+            continue
+        D = _unwrap_seq(data_new[sd[0]][0])
+        rows = None         # the sequence of rows whose values are joined
+        if isinstance(D, ast.Call) and call_name(D) in _JOIN_FUNCS and D.args and not isinstance(D.args[0], (ast.List, ast.Tuple)):
+            rows = D.args[0]
+        L0 = new[0]
+        leaves = _defs_leaves(cx, L0, cx.at_of(L0) or s) if isinstance(L0, ast.Name) else [(L0, s)]
+        if leaves is None:
+            ck.missing(rule, '%s L%s: definitions of the new lengths not recognised' % (q, getattr(s, 'lineno', '?')))
+            continue
+        for L, at in leaves:
+            _one_lengths_leaf(ck, rule, mod, q, cx, V, s, L, at, D, rows)
+    return n
+
+
+def _flat_row_arm(cx, V, at):
+    """+1: `at` is reached only when the first element of the values is NOT
+    iterable (the single-flat-row form); -1: only when it is; 0: no condition
+    on the values beyond "is a non-empty sequence / is a ragged array"
+    dominates; None: some dominating condition on the values is not
+    recognised (or tests another binding of the name)."""
+    from ..patterns import conjuncts, Cmp
+    cfg = cx.fi.cfg
+    res, unknown = 0, False
+
+    def is_v(e):
+        return isinstance(e, ast.Name) and e.id == V
+
+    def first_of_v(e):
+        return isinstance(e, ast.Subscript) and is_v(e.value) and const_value(e.slice, 'x') == 0 and \
+            not isinstance(const_value(e.slice, 'x'), bool)
+
+    def size_of_v(e):
+        return (isinstance(e, ast.Call) and call_name(e) in ('len', 'np.size') and len(e.args) == 1 and is_v(e.args[0])) or \
+            (isinstance(e, ast.Attribute) and e.attr == 'size' and is_v(e.value))
+    for a in cfg.nodes:
+        if not (isinstance(a, Assume) and cfg.dominates(a, at)):
+            continue
+        own = getattr(a, 'owner', None)
+        t = cx.vexpand(a.test, own) if own is not None else a.test
+        if not any(is_v(x) for x in ast.walk(t)):
+            continue
+        cj = conjuncts(t, bool(a.polarity))
+        if cj is None:
+            unknown = True
+            continue
+        same_binding = own is not None and cx.fi.rd.defs_at(own, V) == cx.fi.rd.defs_at(at, V)
+        for c in cj:
+            if isinstance(c, Cmp):
+                if not any(is_v(x) for e in (c.lhs, c.rhs) for x in ast.walk(e)):
+                    continue
+                sides = (c.lhs, c.rhs)
+                if any(size_of_v(x) for x in sides) and any(isinstance(x, ast.Constant) for x in sides):
+                    continue            # non-emptiness
+                if any(match('type(%s)' % V, x) is not None or match('%s.__class__' % V, x) is not None for x in sides):
+                    continue            # ragged operand or not
+                unknown = True
+                continue
+            e, pol = c[1], c[2]
+            if not any(is_v(x) for x in ast.walk(e)):
+                continue
+            if size_of_v(e):
+                continue
+            if isinstance(e, ast.Call) and e.args and len(e.args) <= 2:
+                fn_ = (call_name(e) or '').split('.')[-1]
+                if fn_ in ('_is_iterable', 'iterable', 'isinstance', 'hasattr') and is_v(e.args[0]):
+                    continue            # the values as a whole
+                if fn_ in ('_is_iterable', 'iterable') and first_of_v(e.args[0]) and same_binding:
+                    res = -1 if pol else 1
+                    continue
+                if fn_ == 'isscalar' and first_of_v(e.args[0]) and same_binding:
+                    res = 1 if pol else -1
+                    continue
+            unknown = True
+    if res:
+        return res
+    return None if unknown else 0
+
+
+def _one_lengths_leaf(ck, rule, mod, q, cx, V, s, L, at, D, rows):
+    con = 'lengths of the appended rows (%s)' % u(L)[:80]
+    where = '%s L%s' % (q, getattr(at, 'lineno', '?'))
+    X = _unwrap_seq(L)
+    it = elt = None
+    if isinstance(X, (ast.ListComp, ast.GeneratorExp)) and len(X.generators) == 1 and not X.generators[0].ifs and \
+            isinstance(X.generators[0].target, ast.Name):
+        it, elt, var = X.generators[0].iter, X.elt, X.generators[0].target.id
+        if _is_len_of(elt, var) is None:
+            pure = _pure_over(elt, {var})
+            sizey = any(isinstance(x, ast.Attribute) and x.attr == 'size' for x in ast.walk(elt)) or \
+                any(isinstance(x, ast.Call) and call_name(x) == 'np.size' for x in ast.walk(elt))
+            if pure and not sizey:
+                ck.bad(rule, mod, at, q, 'per-row entry of the new lengths', 'each appended row must contribute its length len(row); found `%s`: '
+                       'lengths no longer add up to the size of the flat data / the row boundaries move' % u(elt)[:80])
+            else:
+                ck.missing(rule, '%s: per-row entry of the new lengths not recognised: %s' % (where, u(elt)[:80]))
+            return
+    elif isinstance(X, ast.Call) and call_name(X) == 'map' and len(X.args) == 2 and u(X.args[0]) == 'len':
+        it = X.args[1]
+    if it is not None:
+        if rows is None:
+            ck.missing(rule, '%s: the new lengths are taken row by row from `%s`, but the values joined to the flat data (%s) are not '
+                       'recognised as the concatenation of a sequence of rows' % (where, u(it)[:60], u(D)[:80]))
+        elif _same_seq_value(cx, it, rows):
+            ck.ok(rule, mod, at, con, 'one length per row of the sequence whose concatenation extends the flat data (%s)' % u(rows)[:60])
+        else:
+            ck.missing(rule, '%s: the new lengths are taken row by row from `%s`, the flat data is extended by the concatenation of `%s`: '
+                       'cannot show that both denote the same rows' % (where, u(it)[:60], u(rows)[:60]))
+        return
+    if isinstance(X, (ast.List, ast.Tuple)) and len(X.elts) == 1:
+        of = _is_len_of(X.elts[0])
+        if of is not None:
+            arm = _flat_row_arm(cx, V, at)
+            same = (rows is not None and _same_seq_value(cx, of, rows)) or _same_seq_value(cx, of, D) or \
+                (isinstance(of, ast.Name) and of.id == V)
+            if arm == 1:
+                ck.ok(rule, mod, at, con, 'a single flat row (first element not iterable): one length, the number of values')
+            elif arm == -1 or (arm == 0 and same):
+                ck.bad(rule, mod, at, q, 'new lengths: ONE entry for all appended rows',
+                       'the appended rows contribute the single length `%s` although this point is reached for a sequence of rows: '
+                       'a.append([r1, r2]) adds one row r1+r2 (or a row whose length is the NUMBER of rows) where the list-of-rows model '
+                       'adds two; lengths, starts and rows disagree with the model from then on' % u(X.elts[0])[:60])
+            else:
+                ck.missing(rule, '%s: a single new length `%s` under a condition on the values that is not recognised' % (where, u(X.elts[0])[:60]))
+            return
+    ck.missing(rule, '%s: lengths of the appended rows not recognised: %s' % (where, u(L)[:100]))
+
+
+# ---------------------------------------------------------------------------
+# D1b derived state: an attribute computed from a representation is a fourth representation
+
+def _rep_deps(mod, cx, e, depth=2):
+    """Representations of the receiver the value of `e` is computed from:
+    mentions of self._data / self._array / self.lengths, of another member of
+    the class (self.starts, len(self) ... -> what that member reads), and, in
+    the constructor, of a parameter that a representation is built from."""
+    deps = set()
+    opaque = False
+    for x in ast.walk(e):
+        a = cx.attr_of_me(x)
+        if a is None:
+            continue
+        if a in FLAG:
+            deps.add(a)
+        elif depth > 0:
+            f = mod.functions.get(CLS + '.' + a)
+            if f is not None:
+                cx2 = Ctx(mod, f)
+                for s in walk_local(f):
+                    if isinstance(s, ast.expr):
+                        b = cx2.attr_of_me(s)
+                        if b in FLAG:
+                            deps.add(b)
+            else:
+                opaque = True        # another stored attribute
+    for x in ast.walk(e):
+        if isinstance(x, ast.Call) and isinstance(x.func, ast.Name) and x.func.id in ('len', 'iter', 'list', 'sum', 'max', 'min') and \
+                any(isinstance(y, ast.Name) and y.id == cx.me for y in x.args):
+            deps |= set(FLAG)        # len(self), list(self): through the protocol methods
+    if cx.fn.name == '__init__':
+        names = {x.id for x in ast.walk(e) if isinstance(x, ast.Name)} & set(cx.params[1:])
+        if names:
+            for s in walk_local(cx.fn):
+                if isinstance(s, ast.Assign) and len(s.targets) == 1 and cx.attr_of_me(s.targets[0]) in FLAG:
+                    if names & {y.id for y in ast.walk(s.value) if isinstance(y, ast.Name)}:
+                        deps.add(cx.attr_of_me(s.targets[0]))
+    if deps & {'_data', '_array'}:
+        deps |= {'_data', '_array'}  # two views of the same content
+    return deps, opaque
+
+
+_SHAPE_ATTRS = {'size', 'shape', 'dtype', 'ndim', 'nbytes', 'itemsize'}
+_SHAPE_CALLS = {'len', 'np.shape', 'np.size', 'np.ndim'}
+
+
+def _shape_only(cx, e):
+    """Every mention of the flat data / the row view in `e` is under an
+    observer of its extent or element type (x.size, x.shape, len(x), x.dtype):
+    the value does not depend on the elements."""
+    par = {}
+    for n in ast.walk(e):
+        for c in ast.iter_child_nodes(n):
+            par[c] = n
+    for n in ast.walk(e):
+        if cx.attr_of_me(n) in ('_data', '_array'):
+            p = par.get(n)
+            if isinstance(p, ast.Attribute) and p.attr in _SHAPE_ATTRS:
+                continue
+            if isinstance(p, ast.Call) and call_name(p) in _SHAPE_CALLS and p.args and p.args[0] is n:
+                continue
+            return False
+        elif cx.attr_of_me(n) is not None and cx.attr_of_me(n) not in FLAG:
+            return False            # through another member: not looked into
+    return True
+
+
+def d1_derived_state(ck, mod):
+    """The typestate of D1 knows three representations.  Any OTHER attribute of
+    the receiver that a method of the class stores and another one reads is
+    state as well; when its value is computed from a representation (a cached
+    `starts`, a remembered size, a memoised flat copy) it is a fourth
+    representation: every writer that changes the representation it was
+    computed from must store it again (or reset it) before it returns, on
+    every path - otherwise a later read returns the value for the old content.
+    Decided by the same forward analysis as D1 with one flag per derived
+    attribute."""
+    rule = 'C06.D1.derived-state'
+    methods = [(q, fn) for q, fn in mod.functions.items() if q.startswith(CLS + '.') and '<locals>' not in q]
+    helper = set()
+    while True:
+        found = {q.split('.', 1)[1] for q, fn in methods if _is_private(q.split('.', 1)[1]) and Ctx(mod, fn, helper).has_events()}
+        if found <= helper:
+            break
+        helper |= found
+    ctxs = {q: Ctx(mod, fn, helper) for q, fn in methods}
+    extra = {}
+    for q, cx in ctxs.items():
+        for n in cx.fi.cfg.nodes:
+            if n in (ENTRY, EXIT) or isinstance(n, Assume):
+                continue
+            for kind, what, stmt, _ in cx.events(n):
+                if isinstance(what, str) and what.startswith('other:'):
+                    extra.setdefault(what[6:], []).append((q, n, kind))
+    if not extra:
+        cls = mod.classes.get(CLS)
+        ck.ok(rule, mod, cls, '%s: no attribute besides _data/_array/lengths is stored by any method' % CLS,
+              'the state of the object is exactly the three representations')
+        return 0
+    n_obl = 0
+    for X, sites in sorted(extra.items()):
+        readers = sorted(q for q, cx in ctxs.items() if any(
+            isinstance(a, ast.Attribute) and isinstance(a.ctx, ast.Load) and cx.attr_of_me(a) == X for a in walk_local(cx.fn)))
+        if not readers:
+            ck.ok(rule, mod, sites[0][1], '%s.%s is stored (%s) and never read in the class' % (CLS, X, sites[0][0]), 'no observer depends on it')
+            continue
+        deps, opaque, resets, shape_only = set(), False, 0, True
+        for q, s, kind in sites:
+            cx = ctxs[q]
+            if kind != 'rebind' or not isinstance(s, (ast.Assign, ast.AnnAssign)) or s.value is None:
+                opaque = True           # stored into in place / deleted / setattr
+                continue
+            v = cx.vexpand(s.value, s)
+            if isinstance(v, ast.Constant) or (isinstance(v, (ast.List, ast.Tuple, ast.Dict)) and not ast.dump(v).count('Name(')):
+                resets += 1
+                continue
+            d, o = _rep_deps(mod, cx, v)
+            deps |= d
+            shape_only = shape_only and _shape_only(cx, v)
+            opaque = opaque or (o and not d)
+        if not deps:
+            if opaque:
+                ck.missing(rule, '%s.%s is stored by %s and read by %s: cannot tell whether its value is computed from a representation' % (
+                    CLS, X, sorted({q for q, _, _ in sites})[0], readers[0]))
+            else:
+                ck.ok(rule, mod, sites[0][1], '%s.%s: value independent of the representations' % (CLS, X), 'configuration, not derived state')
+            continue
+        ctor = ctxs.get(CLS + '.__init__')
+        ctor_sets = ctor is not None and any(q == CLS + '.__init__' and kind == 'rebind' for q, _, kind in sites)
+        for q, cx in sorted(ctxs.items()):
+            name = q.split('.', 1)[1]
+            if name == '__init__' or _is_private(name):
+                continue                # a private helper is judged at its call sites ('opaque' below)
+            cfg = cx.fi.cfg
+            body = [m for m in cfg.nodes if m not in (ENTRY, EXIT) and not isinstance(m, Assume)]
+            if not any(e[1] in deps or e[0] == 'opaque' for m in body for e in cx.events(m)):
+                continue
+            # forward may-analysis: may X be stale?
+            OUT = {m: None for m in cfg.nodes}
+            OUT[ENTRY] = (False, None)
+            work = [m for m in cfg.nodes if m != ENTRY]
+            guard = 0
+            unknown = None
+            while work and guard < 20000:
+                guard += 1
+                m = work.pop(0)
+                st = None
+                for p in cfg.pred.get(m, []):
+                    if OUT[p] is not None:
+                        st = OUT[p] if st is None else ((st[0] or OUT[p][0]), st[1] or OUT[p][1])
+                if st is None:
+                    continue
+                stale, src = st
+                if m in body:
+                    for kind, what, stmt, _x in cx.events(m):
+                        if kind == 'reinit':
+                            if ctor_sets:
+                                stale, src = False, None
+                            else:
+                                stale, src = True, m
+                        elif kind == 'recurse':
+                            stale, src = False, None
+                        elif kind == 'opaque':
+                            unknown = m
+                        elif what == 'other:' + X and kind == 'rebind':
+                            stale, src = False, None
+                        elif what == 'lengths' and 'lengths' in deps:
+                            stale, src = True, m
+                        elif what in ('_data', '_array') and what in deps:
+                            if kind == 'store':
+                                # an element store changes the content, not the extent / element type
+                                if not shape_only:
+                                    stale, src = True, m
+                            elif what == '_array' and rebuild_kind(cx, m) == 'flat':
+                                pass        # the row view re-derived from the flat data: same content
+                            else:
+                                stale, src = True, m
+                new = (stale, src)
+                if new != OUT[m]:
+                    OUT[m] = new
+                    for s2 in cfg.succ.get(m, []):
+                        if s2 not in work:
+                            work.append(s2)
+            if unknown is not None:
+                ck.missing(rule, '%s calls a private writer helper (L%s): the refresh of %s.%s is not followed into it' % (
+                    q, getattr(unknown, 'lineno', '?'), CLS, X))
+                continue
+            for p in cfg.pred.get(EXIT, []):
+                st = OUT.get(p)
+                if st is None or isinstance(p, ast.Raise):
+                    continue
+                n_obl += 1
+                where = 'return at L%s' % getattr(p, 'lineno', '?') if isinstance(p, ast.Return) else 'fall-through after L%s' % getattr(p, 'lineno', '?')
+                if st[0]:
+                    ck.bad(rule, mod, st[1] if st[1] is not None else p, q,
+                           'derived attribute %s not refreshed after a write to %s ; exit: %s' % (
+                               X, '/'.join(sorted(deps)), 'return' if isinstance(p, ast.Return) else 'fall-through'),
+                           '%s.%s is computed from %s (stored by %s, read by %s).  On this path %s changes that representation (%s) and returns '
+                           'without storing %s again or resetting it: the next %s observes the value for the OLD content while rows, flat data '
+                           'and lengths show the new one' % (
+                               CLS, X, '/'.join('self.' + d for d in sorted(deps)), ', '.join(sorted({s_[0] for s_ in sites})),
+                               ', '.join(readers[:3]), q, u(st[1])[:80] if st[1] is not None else '?', X, readers[0]))
+                else:
+                    ck.ok(rule, mod, p if hasattr(p, 'lineno') else cx.fn, '%s: %s ; %s' % (q, X, where), 'derived attribute refreshed / not invalidated on this path')
+    return n_obl
 
 
 # ---------------------------------------------------------------------------
@@ -1781,6 +2726,8 @@ def check(ck):
     ck.floor('C06.D7.row-container', nrc, 4, 'stores into the row container in the writers')
     d5_write_addressing(ck, mod)
     d6_append(ck, mod)
+    d6_append_lengths(ck, mod)
+    d1_derived_state(ck, mod)
     d6_flat_dtype(ck, mod, writers)
     d6_value_probe(ck, mod)
     d2_reflected_dispatch(ck, mod)
